@@ -4,7 +4,7 @@ REPO    ?= /repo
 FLAVOUR ?= default
 B       := build/$(FLAVOUR)
 CXX     := g++
-CXXFLAGS:= -std=c++17 -O2 -g -Wall -Wno-unused-function -Wno-missing-field-initializers -I$(REPO)/include -I$(REPO)/igzip -I$(REPO)/erasure_code -I$(REPO)/crc -I$(REPO)/raid -I$(REPO)/mem -Isim $(FLAVOUR_DEFS)
+CXXFLAGS:= -std=c++17 -O2 -g -Wall -Wno-unused-function -Wno-missing-field-initializers -I$(REPO)/include -I$(REPO)/igzip -I$(REPO)/erasure_code -I$(REPO)/crc -I$(REPO)/raid -I$(REPO)/mem -Isim $(FLAVOUR_DEFS) -DSIM_FLAVOUR='"$(FLAVOUR)"'
 SRCS    := $(wildcard sim/*.cc)
 OBJS    := $(patsubst sim/%.cc,$(B)/o/%.o,$(SRCS))
 ifeq ($(FLAVOUR),hist8k)
